@@ -6,11 +6,15 @@ Proved here for every repository state: unknown hashes are reported unknown by e
 has the requested hash (the repaired definition); `GetHeader` through the long-lived map never
 returns a different header than requested; an extension leaves every earlier lookup of the extended
 branch unchanged; pruning keeps every retained height readable unchanged; the height written for a
-new header is its parent's height plus one. That the branch height maps equal TRUE heights in every
-reachable state (across consolidation, pruning, reload) is the invariant the correspondence checks
-on every dump; it is not yet a theorem (`_partial`).
+new header is its parent's height plus one. For every state reached by ANY history of submissions (forks of forks, refusals, duplicates) the
+height maps are exact (`RepoWF`, Proofs/RepoIds + RepoLookup): the height any lookup reports for a
+hash is the position at which that very header sits in its branch, `GetHeader` returns the requested
+header, `PreviousHash` its true predecessor, and a hash is held at exactly one place. Across
+consolidation, pruning and reload the same invariant is checked by the correspondence on every
+dump; it is not yet a theorem there (`_partial`).
 -/
 import BRV.Proofs.RepoBasics
+import BRV.Proofs.RepoLookup
 
 namespace BRV.Repo
 
@@ -110,6 +114,91 @@ theorem C09_recorded_height (r : Repo) (h : Hdr) (pb : Nat) (ph : Int) (lst : HD
   unfold addToBranch HMap.get? HMap.set
   simp
 
+/-! ### exactness of the lookups in every state reached by submissions -/
+
+/-- **C09 (the reported height of a hash is where that header sits).** In a well-formed repository
+    (every state reached by submissions, `C09_wf_submissions`) the height `HashHeight`/`CheckHeader`
+    report for a hash is a height at which a tracked branch holds exactly that header. -/
+theorem C09_height_is_position (r : Repo) (hr : RepoWF r) (id : Nat) (h : Int) (hh : hashHeight r id = some h) :
+    ∃ bj d, r.at bj h = some d ∧ d.hdr.id = id := by
+  have key : ∀ bj, HeldAt r.arena bj id h → ∃ bj d, r.at bj h = some d ∧ d.hdr.id = id := by
+    intro bj hheld
+    obtain ⟨d, hd, hid⟩ := heldAt_atH r.arena hr.link bj id h hheld
+    have hlt : bj < r.arena.length := atHeight_some_lt _ _ _ _ _ hd
+    exact ⟨bj, d, by rw [Repo.at_eq_atH r hr.link.dec bj hlt]; exact hd, hid⟩
+  unfold hashHeight at hh
+  cases hf : r.branchesFind id with
+  | some x =>
+    obtain ⟨bi, h'⟩ := x
+    rw [hf] at hh
+    simp only [Option.some.injEq] at hh
+    subst hh
+    exact key bi (branchesFind_owner r hr.link hr.ids hr.list id bi h' hf)
+  | none =>
+    rw [hf] at hh
+    obtain ⟨bj, hheld⟩ := hr.heights id h hh
+    exact key bj hheld
+
+/-- **C09 (a hash is held at one place only)**: two branches holding the same hash are the same
+    branch and the same height — so every lookup path reports the same height. -/
+theorem C09_position_unique (r : Repo) (hr : RepoWF r) (id bi bj : Nat) (h h' : Int)
+    (h1 : HeldAt r.arena bi id h) (h2 : HeldAt r.arena bj id h') : bi = bj ∧ h = h' :=
+  heldAt_unique r.arena r.branches hr.ids bi bj id h h' h1 h2
+
+/-- **C09 (`GetHeader` returns the requested header and is available while the hash is tracked).** -/
+theorem C09_getHeader_tracked (r : Repo) (hr : RepoWF r) (id bi : Nat) (h : Int)
+    (hf : r.branchesFind id = some (bi, h)) :
+    ∃ d, getHeader r id = .ok (d.hdr, h, inLongest r id h) ∧ d.hdr.id = id ∧ r.at bi h = some d := by
+  have hheld := branchesFind_owner r hr.link hr.ids hr.list id bi h hf
+  obtain ⟨d, hd, hid⟩ := heldAt_atH r.arena hr.link bi id h hheld
+  have hlt : bi < r.arena.length := atHeight_some_lt _ _ _ _ _ hd
+  have hat : r.at bi h = some d := by rw [Repo.at_eq_atH r hr.link.dec bi hlt]; exact hd
+  refine ⟨d, ?_, hid, hat⟩
+  unfold getHeader
+  rw [hf]
+  simp only [hat]
+
+/-- **C09 (`GetHeader` never hands out another header)** — whichever path answers. -/
+theorem C09_getHeader_exact (r : Repo) (hr : RepoWF r) (id : Nat) (hd : Hdr) (h : Int) (f : Bool)
+    (hg : getHeader r id = .ok (hd, h, f)) : hd.id = id := by
+  cases hf : r.branchesFind id with
+  | some x =>
+    obtain ⟨bi, h'⟩ := x
+    obtain ⟨d, hg', hid, _⟩ := C09_getHeader_tracked r hr id bi h' hf
+    rw [hg'] at hg
+    simp only [Except.ok.injEq, Prod.mk.injEq] at hg
+    rw [← hg.1]; exact hid
+  | none => exact (C09_getHeader_fallback_exact r id hd h f hf hg).1
+
+/-- **C09 (`PreviousHash` is the predecessor named by the requested header).** -/
+theorem C09_previousHash_exact (r : Repo) (hr : RepoWF r) (id p : Nat) (h' : Int)
+    (hp : previousHash r id = some (p, h')) :
+    ∃ bi d, r.at bi (h' + 1) = some d ∧ d.hdr.id = id ∧ d.hdr.prev = p := by
+  unfold previousHash at hp
+  cases hf : r.branchesFind id with
+  | none => rw [hf] at hp; cases hp
+  | some x =>
+    obtain ⟨bi, h⟩ := x
+    rw [hf] at hp
+    simp only at hp
+    cases he : r.at bi (h - 1) with
+    | none => rw [he] at hp; cases hp
+    | some e =>
+      rw [he] at hp
+      simp only [Option.map_some, Option.some.injEq, Prod.mk.injEq] at hp
+      obtain ⟨rfl, rfl⟩ := hp
+      obtain ⟨d, _, hid, hat⟩ := C09_getHeader_tracked r hr id bi h hf
+      have hlt : bi < r.arena.length := atHeight_some_lt _ _ _ _ _ hat
+      have e1 : h - 1 + 1 = h := by omega
+      refine ⟨bi, d, by rw [e1]; exact hat, hid, ?_⟩
+      rw [Repo.at_eq_atH r hr.link.dec bi hlt] at hat he
+      exact atH_linked r.arena hr.link bi h d e hat he
+
+/-- **C09 (submission histories).** Every state reached from a well-formed one (e.g. genesis only)
+    by ANY finite history of header submissions is well-formed, so the four theorems above apply to it. -/
+theorem C09_wf_submissions (r : Repo) (hs : List (Hdr × Bool)) (hr : RepoWF r) (hq : NoAutoClean r hs) :
+    RepoWF (submitAll r hs) := repoWF_submitAll r hs hr hq
+
 /-! ### non-vacuity -/
 
 def exR9 : Repo :=
@@ -119,5 +208,50 @@ def exR9 : Repo :=
     branches := [0], longest := 0, heights := [(0, 0)], disableDifficulty := true }
 
 example : checkHeader exR9 0 = .ok (0, true) ∧ checkHeader exR9 5 = .error .unknown := ⟨by rfl, by rfl⟩
+
+/-- the genesis-only repository is well-formed (the hypotheses of the theorems above are met). -/
+theorem exR9_wf : RepoWF exR9 := by
+  have hget : ∀ (bi : Nat) (b : Branch), exR9.arena[bi]? = some b → bi = 0 ∧ b = exR9.arena[0] := by
+    intro bi b hb
+    cases bi with
+    | zero => simp [exR9] at hb ⊢; exact hb.symm
+    | succ n => simp [exR9] at hb
+  have hk : ∀ (k : Nat) (d : HData), (exR9.arena[0]).headers[k]? = some d → k = 0 := by
+    intro k d hk
+    cases k with
+    | zero => rfl
+    | succ n => simp [exR9] at hk
+  refine ⟨linkWF_single _ rfl rfl _ rfl rfl, ⟨?_, ?_, ?_⟩, ⟨by simp [exR9], by simp [exR9]⟩, ?_⟩
+  · intro bi hlt; simp [exR9] at hlt ⊢; omega
+  · intro bi b hb
+    obtain ⟨rfl, rfl⟩ := hget bi b hb
+    intro id x
+    constructor
+    · intro hg
+      simp only [exR9, List.getElem_cons_zero, HMap.get?, List.lookup] at hg
+      by_cases hid : id = 0
+      · subst hid
+        simp only [BEq.rfl, Option.some.injEq] at hg
+        exact ⟨0, _, rfl, rfl, by rw [← hg]; rfl⟩
+      · have : (id == 0) = false := by simpa using hid
+        simp only [this] at hg; cases hg
+    · rintro ⟨k, d, hk', hid, hx⟩
+      have := hk k d hk'
+      subst this
+      simp only [exR9, List.getElem_cons_zero, List.getElem?_cons_zero, Option.some.injEq] at hk'
+      subst hk'; subst hid; subst hx
+      rfl
+  · intro bi bj b c k l d e hb hc hk1 hl1 _
+    obtain ⟨rfl, rfl⟩ := hget bi b hb
+    obtain ⟨rfl, rfl⟩ := hget bj c hc
+    exact ⟨rfl, by rw [hk k d hk1, hk l e hl1]⟩
+  · intro id x hg
+    simp only [exR9, HMap.get?, List.lookup] at hg
+    by_cases hid : id = 0
+    · subst hid
+      simp only [BEq.rfl, Option.some.injEq] at hg
+      exact ⟨0, _, 0, _, rfl, rfl, rfl, by rw [← hg]; rfl⟩
+    · have : (id == 0) = false := by simpa using hid
+      simp only [this] at hg; cases hg
 
 end BRV.Repo
